@@ -3,6 +3,8 @@
   * valid programs: 1-4 files, packages, plain / public imports, nested messages, enums with aliases,
     oneofs, maps, groups, proto3 optional, extension ranges, reserved ranges / names, extensions,
     services, json_name / default pseudo-options
+  * identifier shapes (C02): `shape_ids` / `shape_sets` enumerate identifiers and put each wherever a descriptor entry is
+    derived from a name; `Gen(idshapes=True)` uses such names in whole programs (off by default, stream untouched)
   * near-valid mutants: one rule broken (or moved to the legal side of its boundary) at a time
   * rendering to .proto text with randomised layout, number and string spellings
   * translation of the source AST and of the observed descriptors into Coq terms
@@ -2057,9 +2059,10 @@ def shape_sets(ids):
                     "message M4 { int32 k = 9; oneof real { int32 %s = 1; string r2 = 4; } optional int32 after = 2; }\n"
                     "message M5 { optional int32 first = 1; repeated int32 %s = 2; optional int32 last = 3; }\n"
                     % (i, i, b1, b1, i, i, b2, i, i) + mp3}))
-        out.append(("shape-p3-pair:" + i, {"t.proto": P3 +
-                    "message M1 { optional string %s = 1; optional int32 %s = 2; }\n"
-                    "message M2 { optional int32 %s = 2; int32 k = 3; optional string %s = 1; }\n" % (i, partner, partner, i)}))
+        if _camel(i, False) != _camel(partner, False):      # equal default JSON names: rejected by both compilers
+            out.append(("shape-p3-pair:" + i, {"t.proto": P3 +
+                        "message M1 { optional string %s = 1; optional int32 %s = 2; }\n"
+                        "message M2 { optional int32 %s = 2; int32 k = 3; optional string %s = 1; }\n" % (i, partner, partner, i)}))
         grp = ""
         if "A" <= i[0] <= "Z":
             grp = ("message M5 { optional group %s = 1 { optional int32 %s = 1; } }\n"
